@@ -342,6 +342,19 @@ def check(prop, tier, seed):
                     extra_in.append(w)
         inputs.extend(extra_in)
         gen_stats.append({"name": "lifted_copies", "vectors": len(extra_in)})
+    if plan.get("lift_inst_every"):
+        # the same relabelling for the instance-level action `evaluate` (modes A-D)
+        k, extra_in = 0, []
+        for v in inputs:
+            if v.get("ev") == "evaluate" and "lift" not in v.get("in", {}):
+                k += 1
+                if k % plan["lift_inst_every"] == 0:
+                    w = json.loads(json.dumps(v))
+                    w["in"]["lift"] = "ABCD"[(k // plan["lift_inst_every"]) % 4]
+                    w["case"] = str(w.get("case", "")) + "-lift" + w["in"]["lift"]
+                    extra_in.append(w)
+        inputs.extend(extra_in)
+        gen_stats.append({"name": "lifted_evaluate_copies", "vectors": len(extra_in)})
     if plan.get("rescale_every"):
         # rescaled copies of  number x function  products (see exec.rs): number / 2^k, coefficients x 2^k, k = +-60
         k, extra_in = 0, []
